@@ -322,6 +322,39 @@ static void enumerate(void) {
               if (!rd) mc_fail("open.failed", "code %d %s", err.code, err.message); else { char fdc[640]; snprintf(fdc, sizeof fdc, "c02x:%s", fd); explore_states(rd, 0, 0, &cols[0], fdc); carquet_reader_close(rd); }
               free(x); ref_buf_free(&img); ref_arena_free(&RA);
           } }
+        /* pages with 2^15 / 2^16 and more values followed by further pages, consumed through a fixed menu of histories (one call for the
+         * whole chunk, calls ending at / one short of / one past the page boundary, blocks of 4096 and 30000, skips over the boundary) */
+        mc_stage("c02.long-pages.history-menu");
+        { static const int PL[] = { 32767, 32768, 40000, 65535, 65536, 70000 }; static const int CDL[] = { CODEC_NONE, CODEC_SNAPPY };
+          for (int pi = 0; pi < 6; pi++) for (int kind = 0; kind < 4; kind++) for (int lay = 0; lay < 2; lay++) for (int cd = 0; cd < 2; cd++) {
+              if (!mc_next()) continue;
+              int P = PL[pi], N = lay ? P + 1300 : P + 1000; memset(&f, 0, sizeof f); f.ncols = 1; f.N = N; f.nrg = 1; f.codec = CDL[cd]; f.crc = true; f.dict_offset_present = true; f.pattern = kind == 3 ? 0 : 3; f.level_form = REF_H_MIXED; f.index_form = REF_H_MIXED;
+              f.col[0].ptype = kind == 2 ? PT_INT64 : kind == 3 ? PT_BYTE_ARRAY : PT_INT32; f.col[0].opt = kind == 1 || kind == 3; f.mask[0] = f.col[0].opt ? 0x1111111111111111ull : 0; f.enc[0] = kind == 3 ? ENC_RLE_DICT : ENC_PLAIN;
+              if (lay) { f.npages[0] = 3; f.page_levels[0][0] = 300; f.page_levels[0][1] = P; f.page_levels[0][2] = 1000; } else { f.npages[0] = 2; f.page_levels[0][0] = P; f.page_levels[0][1] = 1000; }
+              const char* fd = rf_desc(&f); mc_desc("c02L:%s", fd); mc_case_key(mc_mix(0xc02d, ((uint64_t)pi << 16) | ((uint64_t)kind << 8) | ((uint64_t)lay << 1) | (uint64_t)cd)); mc_nontrivial(); mc_budget_ms(30000);
+              ref_buf img; ref_buf_init(&img); static ref_coldata cols[RF_MAXC]; int np = 0; if (rf_build(&RA, &f, &img, NULL, 0, &np, cols)) mc_harness_error("reference writer failed (long pages)");
+              uint8_t* x = mc_exact(img.p, img.n); carquet_error_t err = CARQUET_ERROR_INIT; carquet_reader_t* rd = open_mode(0, x, img.n, 1, &err);
+              if (!rd) mc_fail("open.failed", "code %d %s", err.code, err.message);
+              else {
+                  int first = lay ? 300 : 0; int64_t B = first + P;      /* B = row at which the long page ends */
+                  const int64_t H[][6] = { { N, 0 }, { N + 5, 0 }, { B, N, 0 }, { B - 1, N, 0 }, { B + 1, N, 0 }, { -4096, 0 }, { -30000, 0 }, { -(1 << 20) - 13, N, 0 }, { -(1 << 20) - B, N, 0 }, { 100, -(1 << 20) - P, N, 0 }, { first ? first : 7, N, 0 }, { -32768, 0 } };
+                  /* entries: k > 0 read(k); -(2^20)-k skip(k); other negative: repeat read(|k|) until the end */
+                  for (int h = 0; h < 12; h++) {
+                      carquet_column_reader_t* cr = carquet_reader_get_column(rd, 0, 0, &err); if (!cr) { mc_fail("column.open-failed", "code %d %s", err.code, err.message); break; }
+                      cursor_t q = { &cols[0], 0, 0 }; char ctx[64]; snprintf(ctx, sizeof ctx, "long-pages history %d", h); bool ok = check_queries(cr, &q, ctx);
+                      for (int j = 0; ok && j < 6 && H[h][j]; j++) { int64_t k = H[h][j];
+                          if (k > 0) ok = do_read(cr, &q, k, (h & 1) == 0, ctx);
+                          else if (k <= -(1 << 20)) ok = do_skip(cr, &q, -k - (1 << 20), ctx);
+                          else while (ok && q.pos < cols[0].nlevels) ok = do_read(cr, &q, -k, true, ctx);
+                          ok = ok && check_queries(cr, &q, ctx); }
+                      carquet_column_reader_free(cr); mc_count("transitions", 3);
+                  }
+                  static const int64_t BS[] = { 0, 4096, 32768, 65536 }; int proj[1] = { 0 };
+                  for (int b = 0; b < 4; b++) check_batches(rd, &f, cols, BS[b] ? BS[b] : N, proj, 1, 0, fd, NULL);
+                  carquet_reader_close(rd);
+              }
+              free(x); ref_buf_free(&img); ref_arena_free(&RA);
+          } }
         mc_stage("c02.batch-reader.three-columns.all-batch-sizes.all-projections");
         { static const int TR[][3] = { { PT_INT32, PT_BYTE_ARRAY, PT_DOUBLE }, { PT_BOOLEAN, PT_INT64, PT_FLBA }, { PT_FLOAT, PT_INT96, PT_INT32 } };
           for (int tr = 0; tr < 3; tr++) for (int optm = 0; optm < 8; optm++) for (int N = 1; N <= 7; N += 2) for (int pc = 0; pc < 4; pc++) for (int nrg = 1; nrg <= 2; nrg++) for (int cd = 0; cd < 2; cd++) {
@@ -354,8 +387,10 @@ static void enumerate(void) {
         c03_file(&f, mc_mix(0xc03e, ((uint64_t)t << 16) | ((uint64_t)opt << 8) | ((uint64_t)cd << 4) | (uint64_t)v));
     }
     mc_stage("c03.long-page-headers");
-    { static uint8_t lb[400]; memset(lb, 'q', sizeof lb); static ref_stats ls[6]; static const int LN[] = { 10, 100, 118, 125, 200, 390 };
-      for (int li = 0; li < 6; li++) for (int cd = 0; cd < 2; cd++) for (int enc = 0; enc < 2; enc++) {
+    { enum { NLN = 32 }; static uint8_t lb[1100000]; memset(lb, 'q', sizeof lb); static ref_stats ls[NLN];      /* header = 2 x LN + ~30 bytes: around the stdio path's header windows (256 bytes, 8 KiB, 128 KiB, 2 MiB; before the repair 8 KiB and 1 MiB) and beyond */
+      static const int LN[NLN] = { 10, 100, 118, 125, 200, 390, 4000, 4070, 4075, 4078, 4079, 4080, 4081, 4082, 4083, 4084, 4085, 4086, 4090, 4100, 5000, 40000, 65500, 65515, 65521, 65530, 524260, 524290, 650000, 1048550, 1048565, 1090000 };
+      for (int li = 0; li < NLN; li++) for (int cd = 0; cd < 2; cd++) for (int enc = 0; enc < 2; enc++) {
+          if (LN[li] > 60000 && (cd || enc)) continue;
           memset(&ls[li], 0, sizeof ls[li]); ls[li].min_value = (ref_bin){ lb, LN[li], true }; ls[li].max_value = (ref_bin){ lb, LN[li], true }; ls[li].has_null_count = true;
           memset(&f, 0, sizeof f); f.ncols = 2; f.N = 6; f.nrg = 1; f.codec = cd ? CODEC_SNAPPY : CODEC_NONE; f.crc = true; f.dict_offset_present = true;
           f.col[0].ptype = PT_BYTE_ARRAY; f.col[0].opt = 1; f.mask[0] = 0x12; f.enc[0] = enc ? ENC_RLE_DICT : ENC_PLAIN; f.npages[0] = 2; f.page_levels[0][0] = 4; f.page_levels[0][1] = 2; f.page_stats[0] = &ls[li];
